@@ -829,7 +829,7 @@ func (fe *FuncEnc) enterLoop(li *loopInfo, ins []*State) *State {
 		}
 	}
 	// loop frame: cells outside the function's assigns clause keep their entry values
-	if fe.c != nil && fe.c.HasAssigns && !all {
+	if fe.c != nil && fe.c.HasAssigns && !fe.c.FrameAssumed && !all {
 		for _, n := range sortedKeys(written) {
 			if !isHeapVarName(n) || fe.heapSorts[n] == "" {
 				continue
